@@ -141,6 +141,16 @@ def check(run, prefix="O7"):
         o.check(bool(w) and all(b.rvalue_term(rv)[0] == "param" for (_bb, _sp, rv) in w), "ParentReadyTracker::prune|sets-root", "root = new_root", b.span)
         ret = [c for c in b.calls() if c.name.endswith("::retain") and K.is_field(b.operand_term(c.args[0]), "states", "ParentReadyTracker")]
         o.check(bool(ret), "ParentReadyTracker::prune|retain", "states.retain(slot >= new_root)", b.span)
+        for c in ret:
+            ct = b.operand_term(c.args[1])
+            cb = prog.bodies.get(ct[1]) if isinstance(ct, tuple) and ct and ct[0] == "closure" else None
+            if cb is None:
+                o.fail("ParentReadyTracker::prune|retain|predicate", "retain predicate is not a closure of this function", c.span)
+                continue
+            # exactly `slot >= new_root`: a state at or above the root is never dropped - it may hold a registered waiter or marks that
+            # only matter later (a 'blank' looking state with a waiter must survive)
+            bad = D.closure_is_threshold(prog, cb, lambda x: K.mentions(x, lambda y: y[0] == "param" and y[1] == 2), lambda x: K.mentions(x, lambda y: y[0] == "upvar") and not K.mentions(x, lambda y: y[0] == "param"))
+            o.check(not bad, "ParentReadyTracker::prune|retain|predicate", "a per-slot state is kept exactly when slot >= new_root (nothing else decides)", c.span, {"problems": bad[:3]})
     # every other function that creates per-slot state
     creators = sorted(set(K.root_fn(c.body.defpath) for c in prog.callers_of(PRT + "::slot_state")))
     o.check(set(x.rsplit("::", 1)[-1] for x in creators) <= {"mark_notar_fallback", "mark_skipped"}, "ParentReadyTracker::slot_state|callers",
@@ -219,6 +229,19 @@ def check(run, prefix="O7"):
     if b is None:
         o.missing("ParentReadyTracker::handle_finalization")
     else:
+        # which of the pairs collected for one finalization event is announced: the one for the HIGHEST window (the order in which the
+        # event's parts are processed is not ascending: the finalized block comes first, its ancestors after it)
+        rets = [b.call_term(bl["id"], bl["term"]) for bl in b.blocks if bl["term"]["k"] == "call" and bl["term"]["dst"]["l"] == 0 and not bl["term"]["dst"]["p"] and bl["id"] in b.reach()]
+        rets += [b.rvalue_term(st["rv"]) for bl in b.blocks for st in bl["stmts"] if st["k"] == "assign" and st["dst"]["l"] == 0 and not st["dst"]["p"]]
+        sel = set()
+        for t in rets:
+            sel |= set(x.rsplit("::", 1)[-1] for x in b.provenance(t, depth=10)["calls"])
+        by_max = bool(sel & {"max_by_key", "max_by", "max"})
+        positional = sorted(sel & {"pop", "last", "first", "next_back", "nth", "swap_remove", "remove", "truncate", "drain", "split_off"})
+        whole = not by_max and not positional       # the whole collection is returned: every pair announced
+        o.check((by_max and not positional) or whole, "ParentReadyTracker::handle_finalization|selects-highest-slot",
+                "of the pairs one finalization event makes ready, the announced one is selected by its slot (maximum), not by its position in the collection", b.span,
+                {"selectors": sorted(sel & {"max_by_key", "max_by", "max", "pop", "last", "first", "next", "next_back", "nth"})})
         table = {}
         for c in b.calls_to([PRT + "::mark_notar_fallback", PRT + "::mark_skipped"]):
             pv = b.provenance(b.operand_term(c.args[1]))
